@@ -464,7 +464,7 @@ pub fn run(ctx: &Ctx) -> Outcome {
     // curves stroked under transforms that stretch one axis 16..64 times more than the other: the stroker flattens in
     // user space with a tolerance derived from the transform as a whole (0.1 px over the square root of the
     // determinant), and the outline must stay where that tolerance puts it, whichever axis is the stretched one
-    run_cases(ctx, &mut out, SubSpec { name: "curved_strokes_under_uneven_scales", cases: ctx.n(2_500, 60_000), exhaustive: false, max_secs: secs / 2. }, |i, want, st| {
+    run_cases(ctx, &mut out, SubSpec { name: "curved_strokes_under_uneven_scales", cases: ctx.n(6_000, 120_000), exhaustive: false, max_secs: secs / 2. }, |i, want, st| {
         let mut rng = ctx.rng("curved_strokes_under_uneven_scales", i);
         let mut co = CaseOut::default();
         let w = rng.int(28, 48) as i32;
